@@ -229,8 +229,10 @@ def check_config(ctx, F, tag, text, lists):
     ctx.ob("C07.R2.no-byte-order-conversion", "crate" + tag, "src/", not swaps, "who-may-call", "elements are copied bytes; byte-order conversion calls in the crate: %s" % swaps, nontrivial=False)
     need(text, r"floor\(\(n \+ 63\) / 64\)", "raw bitvector word count")
     bw = F.body("bits::bits_to_words")
-    ok = m(Bin("Div", Bin("Sub", Bin("Add", Param(0), Const(64)), Const(1)), Const(64)), bw.term_of_local(0)) or m(Bin("Div", Bin("Add", Param(0), Const(63)), Const(64)), bw.term_of_local(0)) or \
-        m(Bin("Shr", Bin("Add", Param(0), Const(63)), Const(6)), bw.term_of_local(0)) or m(Call("bits::div_round_up", Param(0), Const(64)), bw.term_of_local(0))
+    from pat import fold_consts
+    bwt = fold_consts(bw.term_of_local(0))
+    ok = m(Bin("Div", Bin("Sub", Bin("Add", Param(0), Const(64)), Const(1)), Const(64)), bwt) or m(Bin("Div", Bin("Add", Param(0), Const(63)), Const(64)), bwt) or \
+        m(Bin("Shr", Bin("Add", Param(0), Const(63)), Const(6)), bwt) or m(Call("bits::div_round_up", Param(0), Const(64)), bwt)
     ctx.ob("C07.R2.document-constant", "bits::bits_to_words" + tag, loc(bw.raw["span"]), ok, "formula", "document: floor((n + 63) / 64) elements; bits_to_words(n) = %s" % tstr(bw.term_of_local(0)))
     rl = F.body("<raw_vector::RawVector as serialize::Serialize>::load")
     need(text, r"can be from 1 to 64 bits", "item width range")
